@@ -1,6 +1,7 @@
 package flow
 
 import (
+	"fmt"
 	"go/token"
 	"go/types"
 
@@ -193,6 +194,35 @@ func FieldPath(v ssa.Value) (string, bool) {
 		return FieldPath(x.X)
 	case *ssa.MakeInterface:
 		return FieldPath(x.X)
+	case *ssa.ChangeInterface:
+		return FieldPath(x.X)
+	case *ssa.IndexAddr:
+		if base, ok := FieldPath(x.X); ok {
+			return base + "[]", true
+		}
+	case *ssa.Extract:
+		if base, ok := FieldPath(x.Tuple); ok {
+			return fmt.Sprintf("%s#%d", base, x.Index), true
+		}
+	case *ssa.TypeAssert:
+		if base, ok := FieldPath(x.X); ok {
+			return base + ".(assert)", true
+		}
+	case *ssa.Call:
+		if f := StaticCallee(&x.Call); f != nil {
+			return "call(" + f.Name() + ")", true
+		}
+		if x.Call.IsInvoke() {
+			return "call(" + x.Call.Method.Name() + ")", true
+		}
+	case *ssa.Select:
+		return "select", true
+	case *ssa.Next:
+		return "range", true
+	case *ssa.Lookup:
+		if base, ok := FieldPath(x.X); ok {
+			return base + "[]", true
+		}
 	}
 	return "", false
 }
